@@ -103,4 +103,23 @@ theorem encDisconnect_plain (proto : Nat) : ∃ bytes, encDisconnect proto none 
   unfold encDisconnect
   by_cases h : proto = 5 <;> simp [h, h0, pure, Except.pure, bind, Except.bind]
 
+/-! ### the two observers the properties speak about -/
+
+/-- **`Client.is_connected` as the source has it now = the model's `isConnected`** (C10: `c10_connected_sound` is about it) -/
+theorem fn_isConnected (s : S) (now : Int) :
+    Gen.Fn.LoopRc.isConnected (csCode s.cstate) now = .ok (s.isConnected, []) := by
+  unfold Gen.Fn.LoopRc.isConnected S.isConnected
+  cases hcs : s.cstate <;> simp [csCode, pure, Except.pure, Gen.Fn.LoopRc.c__ConnectionState_MQTT_CS_CONNECTED,
+    Gen.Fn.c__ConnectionState_MQTT_CS_CONNECTED, Gen.Fn.c__ConnectionState_MQTT_CS_CONNECTION_LOST,
+    Gen.Fn.c__ConnectionState_MQTT_CS_DISCONNECTING, Gen.Fn.c__ConnectionState_MQTT_CS_DISCONNECTED]
+
+/-- **`Client.want_write` = the model's `wantWrite`**: true exactly while the outgoing packet queue is not empty (C06:
+`c06_want_write`, C16: `c16_no_lost_wakeup` are about it) -/
+theorem fn_wantWrite (s : S) (now : Int) :
+    Gen.Fn.LoopRc.wantWrite (s.outq.length : Int) now = .ok (s.wantWrite, []) := by
+  unfold Gen.Fn.LoopRc.wantWrite S.wantWrite
+  cases h : s.outq with
+  | nil => simp [pure, Except.pure]
+  | cons p rest => simp [pure, Except.pure]
+
 end Paho.FnEq
